@@ -165,12 +165,29 @@ def emit_cpp(prog, opts=None):
             if st.kind == 'exit': tn = '%s::exit_pt<%s >' % (machine_type(prog, m), tn)
             out.append('    case %d: return VF_SID(%s, %s);' % (st.idx, machine_type(prog, m), tn))
     out.append('    default: return -1;\n  }\n}')
+    if opts.get('introspect'):
+        out.append('__attribute__((noinline)) int vf_introspect(void) {\n  int m = 0;')
+        out.append('#if VF_IS_MP11')
+        for m_ in prog.machines:
+            for st in m_.states.values():
+                tn = st.name if st.kind == 'sub' else '%s_::%s' % (m_.name, st.name)
+                out.append('  if (g_sm.is_state_active<%s >()) m |= %d;' % (tn, 1 << st.idx))
+        out.append('#else')
+        for m_ in prog.machines:
+            for st in m_.states.values():
+                tn = st.name if st.kind == 'sub' else '%s_::%s' % (m_.name, st.name)
+                mt = machine_type(prog, m_)
+                out.append('  { %s& o = %s; if ((const void*)o.get_state_by_id(VF_SID(%s, %s)) == (const void*)static_cast<const %s::BaseState*>(&o.get_state<%s&>())) m |= %d; }'
+                           % (mt, machine_obj(prog, m_), mt, tn, mt, tn, 1 << st.idx))
+        out.append('#endif')
+        out.append('  return m;\n}')
     if prog.flags:
         out.append('__attribute__((noinline)) int vf_flags(void) {\n  int m = 0;')
         for k, f in enumerate(prog.flags):
             out.append('  if (g_sm.is_flag_active<%s>()) m |= %d;' % (f, 1 << k))
             out.append('  if (VF_FLAG_AND(g_sm, %s)) m |= %d;' % (f, 1 << (8 + k)))
         out.append('  return m;\n}')
+    out.append('__attribute__((noinline)) int vf_is_mp11(void) { return VF_IS_MP11; }')
     out.append(opts.get('extern_c', ''))
     out.append('}')
     return '\n'.join(out) + '\n'
@@ -215,6 +232,37 @@ def flag_checks(prog, conf, tag):
     return out
 
 
+def introspect_checks(prog, conf, tag):
+    """C03: is_state_active<S> for every S (backmp11) / get_state_by_id(id) identity for every id (back, back11)"""
+    if not conf.started: return []
+    act = 0; allm = 0
+    for m in prog.machines:
+        for st in m.states.values(): allm |= 1 << st.idx
+    for m in conf.active_machines():
+        for name in conf.m[m.name]['active']: act |= 1 << m.states[name].idx
+    return ['VF_CHECK(VFN(vf_introspect)() == (VFN(vf_is_mp11)() ? %d : %d), "%s:introspection (is_state_active / get_state_by_id)");' % (act, allm, tag)]
+
+
+def numbering_checks(prog, tag):
+    """documented numbering: sources top-down, then targets top-down, then remaining (initial) states; only asserted for
+    machines without submachines and pseudo-states, where the rule is unambiguous"""
+    out = []
+    for m in prog.machines:
+        if any(st.kind != 'simple' for st in m.states.values()): continue
+        order = []
+        for r in m.rows:
+            if isinstance(r.src, str) and r.src not in order: order.append(r.src)
+        for r in m.rows:
+            if isinstance(r.tgt, str) and r.tgt not in order: order.append(r.tgt)
+        for reg in m.regions:
+            if reg[0] not in order: order.append(reg[0])
+        for n in m.states:
+            if n not in order: order.append(n)
+        for k, n in enumerate(order):
+            out.append('VF_CHECK(VFN(vf_sid)(%d) == %d, "%s:documented state id of %s");' % (m.states[n].idx, k, tag, n))
+    return out
+
+
 def post_checks(prog, conf, tag):
     out = []
     if not conf.started: return out
@@ -245,7 +293,7 @@ def build_trie(prog, paths, proj, leaf_fn):
 
 def dec_cond(dec):
     if not dec: return '1'
-    return ' && '.join('((vf_gmask >> %d) & 1u) == %du' % (site, v) for site, v in dec)
+    return ' && '.join('vf_gv[%d] == %d' % (site, v) for site, v in dec)
 
 
 def emit_trie(node, depth, ind, tag, out):
@@ -288,7 +336,7 @@ def step_call(prog, st, decs=None, pay='0'):
     g = 0
     for site, v in (decs or {}).items():
         if v: g |= 1 << site
-    pre = 'vf_gmask = 0x%xu; ' % g if decs is not None else ''
+    pre = 'vf_set_guards(0x%xu); ' % g if decs is not None else ''
     if st[0] == 'start': return pre + 'VFN(vf_start)();'
     if st[0] == 'stop': return pre + 'VFN(vf_stop)();'
     if st[0] == 'ev':
@@ -307,7 +355,7 @@ def active_completion_sites(prog, conf):
     return mask
 
 
-def emit_harness(prog, confs, steps, tag, proj=KINDS_ALL, check_result=True, check_post=True, check_flags=False, probe=None,
+def emit_harness(prog, confs, steps, tag, proj=KINDS_ALL, check_result=True, check_post=True, check_flags=False, probe=None, check_introspect=False,
                  extra_pre=None, extra_leaf=None, nsites=None):
     """confs: list of (conf, script).  steps: symbolic step alphabet (list of step descriptors;
     all 'ev' steps are merged into one nondet kind).  Emits harness_p<i> per configuration."""
@@ -323,13 +371,16 @@ def emit_harness(prog, confs, steps, tag, proj=KINDS_ALL, check_result=True, che
     for ci, (conf, script) in enumerate(confs):
         # checkers
         fns = []
-        for st in steps:
+        decs_by_kind = {}
+        my_steps = [st for st in steps if (st[0] == 'start') != conf.started]
+        for st in my_steps:
             paths = explore(prog, conf, lambda sem, st=st: run_step(sem, st), probe=probe)
             def leaf_fn(dec, log, res, post):
                 l = []
                 if check_result: l += result_checks(res, tag)
                 if check_post: l += post_checks(prog, post, tag)
                 if check_flags: l += flag_checks(prog, post, tag)
+                if check_introspect: l += introspect_checks(prog, post, tag)
                 if extra_leaf: l += extra_leaf(conf, st, dec, log, res, post)
                 return tuple(l)
             trie = build_trie(prog, paths, proj, leaf_fn)
@@ -338,6 +389,8 @@ def emit_harness(prog, confs, steps, tag, proj=KINDS_ALL, check_result=True, che
             emit_trie(trie, 0, 1, tag, body)
             out.append('static void %s(uint32_t r, int32_t P) {\n%s\n}' % (fn, '\n'.join(body)))
             fns.append((st, fn, len(paths)))
+            if st[0] == 'ev':
+                decs_by_kind[prog.events.index(st[1])] = [[[site, v] for site, v in dec.items()] for dec, _, _, _ in paths]
         out.append('void harness_p%d(void) {' % ci)
         out.append('  vf_init();')
         out.append('  vf_projmask = %s;' % ' | '.join('VF_M_' + k for k in proj))
@@ -348,23 +401,31 @@ def emit_harness(prog, confs, steps, tag, proj=KINDS_ALL, check_result=True, che
         for l in post_checks(prog, conf, tag + ':prefix'): out.append('  ' + l)
         if check_flags:
             for l in flag_checks(prog, conf, tag + ':prefix'): out.append('  ' + l)
+        if check_introspect:
+            for l in introspect_checks(prog, conf, tag + ':prefix') + numbering_checks(prog, tag): out.append('  ' + l)
         if extra_pre:
             for l in extra_pre(conf): out.append('  ' + l)
-        nalt = (1 if evsteps else 0) + len(others)
+        my_ev = [st for st in my_steps if st[0] == 'ev']
+        nalt = (1 if my_ev else 0) + len([st for st in my_steps if st[0] != 'ev'])
         out.append('  uint32_t sel = vf_nondet(0); VF_ASSUME(sel < %d);' % nalt)
         out.append('  uint32_t kind = vf_nondet(1); VF_ASSUME(kind < %d);' % max(1, len(prog.events)))
         out.append('#ifdef VF_KIND')
         out.append('  kind = VF_KIND; vf_inputs[1] = kind;   /* one query per event kind (guards and payload stay symbolic) */')
         out.append('#endif')
         out.append('  int32_t P = (int32_t)vf_nondet(2);')
-        out.append('  vf_gmask = vf_nondet(3);')
         cm = active_completion_sites(prog, conf)
-        if cm: out.append('  VF_ASSUME((vf_gmask & 0x%xu) == 0); /* completion guards of active states stay false (C10 quantifier) */' % cm)
+        out.append('#ifndef VF_GFIX_MASK')
+        out.append('#define VF_GFIX_MASK 0u')
+        out.append('#define VF_GFIX_VAL 0u')
+        out.append('#endif')
+        out.append('  /* all guard sites nondet, except: sites fixed by a case split of the check engine; completion guards of states')
+        out.append('     active in the pre-state stay false (quantifier of C10: fixed until the state is re-entered) */')
+        out.append('  vf_nondet_guards(VF_GFIX_MASK | 0x%xu, VF_GFIX_VAL & ~0x%xu);' % (cm, cm))
         out.append('  vf_nlog = 0; uint32_t r = 0;')
         alt = 0
-        if evsteps:
+        if my_ev:
             out.append('  if (sel == 0) {')
-            allowed = [prog.events.index(s[1]) for s in evsteps]
+            allowed = [prog.events.index(s[1]) for s in my_ev]
             out.append('    VF_ASSUME(%s);' % ' || '.join('kind == %d' % k for k in allowed))
             out.append('    r = (uint32_t)VFN(vf_ev)(kind, P);')
             for st, fn, _ in fns:
@@ -379,7 +440,7 @@ def emit_harness(prog, confs, steps, tag, proj=KINDS_ALL, check_result=True, che
         out.append('}')
         index.append({'harness': 'harness_p%d' % ci, 'conf': conf_str(conf),
                       'script': [(list(st), dec) for st, dec in script],
-                      'paths': sum(n for _, _, n in fns)})
+                      'paths': sum(n for _, _, n in fns), 'decs_by_kind': decs_by_kind})
         nh += 1
     out.append('#ifndef __CPROVER__')
     out.append('void (*vf_harnesses[])(void) = {%s};' % ', '.join('harness_p%d' % i for i in range(nh)))
@@ -393,7 +454,8 @@ def conf_str(conf):
     for m in conf.active_machines() if conf.started else []:
         parts.append('%s[%s]' % (m.name, ','.join(conf.m[m.name]['active'])))
     s = ' '.join(parts) if conf.started else 'not-started'
-    hist = ['%s~(%s)' % (n, ','.join(v['hist'])) for n, v in sorted(conf.m.items()) if v['hist']]
+    hm = {m.name: m.history != 'none' for m in conf.prog.machines}
+    hist = ['%s~(%s)' % (n, ','.join(v['hist'])) for n, v in sorted(conf.m.items()) if v['hist'] and hm[n]]
     if hist: s += ' hist:' + ' '.join(hist)
     if conf.queue: s += ' queue:%s' % (conf.queue,)
     if conf.deferred: s += ' deferred:%s' % (conf.deferred,)
